@@ -7,6 +7,8 @@ from vpx import e2 as E2
 from vpx.models import rsh, rmake
 
 ID = 'C01'
+LEVEL_TEXT = 'bounded symbolic execution (CrossHair/z3) of the real Make writer and sh quoting code for every string up to the stated length over all of Unicode, in 12 argument positions, decoded by reference models of GNU Make and sh that are validated against the real tools on every run; counterexamples replayed with real make + sh'
+LEVEL_NOTE = "trusted: CrossHair's string/regex models (+ vpx/chplugin.py), rmake/rsh reference models (validated against /usr/bin/make 4.3 and /bin/sh per run); bounded: string length, one symbolic argument per line"
 HARNESS = 'vpx.harness.c01'
 FUNCTIONS = [
     'bfg9000.backends.make.syntax.Writer.write', 'Writer.write_shell', 'Writer.write_each',
